@@ -9,13 +9,17 @@ PROPERTY = "C15"
 CONTRACTS = ["contracts.c15"]
 LEVEL = "exploration"
 EXPLANATION = (
-    "Bounded: acyclic sets of saved queries (with S/O/G clauses, alternatives and nested references) are written as zoq files; "
-    "for every referencing query the notes returned through the reference are compared with the notes returned by the explicit, "
-    "parenthesised conjunction on a real index; missing saved queries must be reported as an error. "
-    "Known finding F13 (a saved WHERE clause with a top-level `|` is spliced without parentheses) is reproduced with an exact class."
+    "Contract-based (all inputs, a local fact only): _group_if_needed splices a saved WHERE clause unchanged or inside one pair of "
+    "parentheses, and a clause with an OR bar that is not already enclosed is enclosed. "
+    "Bounded: acyclic sets of saved queries (S/O/G clauses, alternatives, parenthesised top-level alternatives, nested references, "
+    "diamonds whose shared node itself contains a reference) are written as zoq files; for every referencing query (one or two "
+    "alternatives of ordinary atoms and references) the notes returned through the reference are compared with the notes returned by "
+    "the explicit, parenthesised conjunction on a real index; missing saved queries must be reported as an error. "
+    "Known finding F23 (kind / priority atoms of an un-parenthesised conjunction pool with the surrounding group) is reproduced with an "
+    "exact class; the earlier finding about clauses with `|` was repaired (b230dfb)."
 )
 ASSUMPTIONS = ["the saved-query graph is acyclic (hypothesis of the property)"]
-TRUSTED = ["SQLAlchemy/SQLite, antlr4 (real stack)"]
+TRUSTED = ["SQLAlchemy/SQLite, antlr4 (real stack)", "z3 5.1 / cvc5 1.0.3", "pyvc symbolic interpreter (engine/)"]
 
 SAVED = {
     "works": "W #work",
